@@ -70,9 +70,61 @@ def run(tier):
     far = isa.gen_far(rnd)
     st2 = enc.run(v, ind + mem + far, binary)
     st.update({"indirect_" + k: x for k, x in st2.items()})
+    # ---- execution monitor: the CPU itself must land where the written displacement says.
+    # layout:  xor eax,eax ; <branch d> ; d bytes of 'ret' (c3) ; mov rax, K ; ret        (forward, d >= 0)
+    #          xor eax,eax ; jmp over ; T: mov rax, K ; ret ; over: <branch -(len(T block)+len(branch))>   (backward)
+    # after 'xor eax,eax': ZF=1 PF=1 SF=0 CF=0 OF=0, so these conditional jumps are taken:
+    taken = {"je", "jae", "jge", "jle", "jns", "jno", "jp", "jmp"}
+    not_taken = {"jne", "ja", "jb", "jg", "jl", "js", "jo", "jnp"}
+    plain = common.build("plain")
+    ex, exmeta = [], []
+    K = 0x1122334455667788
+    for mn in sorted(taken | not_taken):
+        for kw in (None, "short", "long"):
+            dsel = [0, 1, 2, 5, 64, 126, 127] + ([128, 129, 300, 1000] if kw != "short" else [])
+            for d in dsel:
+                prog = ["xor eax, eax", "%s %s%d" % (mn, (kw + " ") if kw else "", d)] + ["ret"] * d + ["mov rax, 0x%x" % K, "ret"]
+                ex.append(["new 0 int", "asm 0 %s" % common.hx("\n".join(prog)), "exec 0"])
+                exmeta.append((mn, kw, d, K if mn in taken or d == 0 else 0))
+            # backward: target block is 'mov rax,K' (10 bytes) + 'ret' (1) = 11 bytes, then the branch itself (2 or 5/6 bytes)
+            # the branch's own length decides the displacement: measure it (keyword-less backward branches may be rel8 or rel32)
+            probe = common.run_lines(binary, [(enc.DEFAULT, "%s %s-20" % (mn, (kw + " ") if kw else ""), 0)], tag="c05l", nproc=1)[0]
+            if "crash" in probe or probe["rc"] != 0:
+                continue
+            for blen in (len(probe["bytes"]) // 2,):
+                back = -(11 + blen)
+                prog = ["xor eax, eax", "jmp 11", "mov rax, 0x%x" % K, "ret", "%s %s%d" % (mn, (kw + " ") if kw else "", back), "ret"]
+                ex.append(["new 0 int", "asm 0 %s" % common.hx("\n".join(prog)), "exec 0"])
+                exmeta.append((mn, kw, back, K if mn in taken else 0))
+    for d in (0, 1, 100, 127, 128, 4000):
+        prog = ["xor eax, eax", "call %d" % d] + ["ret"] * d + ["pop rcx", "mov rax, 0x%x" % K, "ret"]
+        ex.append(["new 0 int", "asm 0 %s" % common.hx("\n".join(prog)), "exec 0"])
+        exmeta.append(("call", None, d, K))
+    exres = common.run_cases(plain, ex, tag="c05x")
+    st["executions"] = len(ex)
+    st["executions_ok"] = 0
+    for (mn, kw, d, want), cmds, r in zip(exmeta, ex, exres):
+        v.count()
+        case = {"key": "exec %s %s %d" % (mn, kw, d), "fam": "branch_exec", "mn": mn, "kw": kw, "d": d, "script": cmds}
+        if r["crash"]:
+            v.violation(case, r["crash"]["sig"], r["crash"]["stderr"][-600:])
+            continue
+        a = r["records"][1].split()
+        e = r["records"][2].split()
+        if a[1] != "0":
+            if kw == "short" and not (-128 <= d <= 127):
+                continue
+            if kw == "short":
+                continue  # the statement is silent on accepting 'short' with an in-range displacement
+            v.violation(case, "exec:rejected", r["records"][1])
+        elif e[:2] != ["V", "ok"] or int(e[2], 16) != want:
+            v.violation(case, "exec:lands-elsewhere", "got %s want 0x%x" % (" ".join(e), want))
+        else:
+            st["executions_ok"] += 1
+            v.distinct(("exec", mn, kw, d))
     v.cov["rule"] = ("{jmp, call, jrcxz, xbegin, 15 jcc spellings} x {no keyword, short, long} x d in -129..128 (all), around +/-2^15, +/-2^31 and seeded random, decimal and hex; "
                      "an accepted line must decode (two decoders) to the same branch with rel == d and a form the model allows; lines the property requires to be rejected must return EXIT_FAILURE "
-                     "and leave the buffer untouched; the model is silent where the statement is; indirect targets: all r64, memory targets over address shapes (C02 machinery), far word/dword/qword")
+                     "and leave the buffer untouched; the model is silent where the statement is; indirect targets: all r64, memory targets over address shapes (C02 machinery), far word/dword/qword; plus JIT execution of forward/backward jmp/jcc/call programs that return a constant only if the branch lands exactly where the displacement says")
     v.cov["exhaustive"] = False
     v.cov["model"] = "vlib/isa.py branch_model"
     floor = st["accepted"] > 1000 and st["must_reject_checked"] >= 0
